@@ -145,8 +145,18 @@ func scanNTTSched(c *core.Ctx) []ob {
 					if o, ok := info.Defs[fd.Name].(*types.Func); ok {
 						decls[o] = fd
 						if ts, ok := transformSigOf(info, fd); ok {
-							sigs[o] = ts
-							fns = append(fns, o)
+							// a whole transform is determined by N: a helper that also takes a layer size, an offset or
+							// a flag is a piece of one and cannot be run on its own
+							whole := true
+							for _, p := range ts.others {
+								if t := info.TypeOf(p); isIntLike(t) || types.Identical(t.Underlying(), types.Typ[types.Bool]) {
+									whole = false
+								}
+							}
+							if whole || o.Exported() {
+								sigs[o] = ts
+								fns = append(fns, o)
+							}
 						}
 					}
 				}
